@@ -351,7 +351,8 @@ func configs(quick bool) []Config {
 	}
 	gs := []gk{
 		{scaled, []uint32{0, 20, 40, 10, 30, 15, 5, 100}, []int64{400000, 400013}},
-		{env.DefaultGeometry, []uint32{0, 1000, 2000, 10000, 500, 1500, 700, 300, 15000}, []int64{1700000000000, 1700000000777}},
+		// 1250 and 625 divide the array interval and exceed its bucket length without being multiples of it
+		{env.DefaultGeometry, []uint32{0, 1000, 2000, 10000, 500, 1500, 700, 300, 15000, 1250, 625}, []int64{1700000000000, 1700000000777}},
 	}
 	ths := []float64{0, 0.5, 1, 2, 2.5, 3}
 	for _, g := range gs {
